@@ -602,3 +602,34 @@ package commitlog
 //@   requires wfStored(m)
 //@   safety
 //@   loop 1 invariant i <= numHeaders && int(numHeaders) == int(be16(m, valEndOf(m))) && n == hdrPos(m, int(i)) && n >= 0 && n <= len(m)
+
+// ---------------------------------------------------------------------------------------------
+// Truncate(offset) (properties C01, C05): removes a suffix only. Segments wholly below the offset are kept as they
+// are; only segments after the one holding the offset (and that one, when it starts at the offset and is not the
+// first) are deleted; the segment holding the offset is rewritten from its own messages below the offset - each
+// written unchanged with the index entry it had - and then replaces the original; the last remaining segment
+// becomes the active one; the leader epoch history is cut at the same offset.
+//@ func (*segment).Truncated serves C01, C05
+//@   returns (c, err)
+//@   requires s != nil
+//@   ensures err == nil ==> c != nil && c.BaseOffset == old(s.BaseOffset)
+//@ ghost var cut bool
+//@ func (*commitLog).Truncate serves C01, C05, C02
+//@   ghost at entry: ghost.cut := false
+//@   ghost after call StorePointer: ghost.cut := true
+//@   requires l != nil && l.leaderEpochCache != nil && wfEpochs(l.leaderEpochCache)
+//@   assumes forall i int :: 0 <= i && i < len(l.segments) ==> l.segments[i] != nil
+//@   assumes forall i int, j int :: 0 <= i && i < j && j < len(l.segments) ==> nextOf(l.segments[i]) <= nextOf(l.segments[j])
+//@   call Delete#2 requires [only-segments-after-the-offset] arg0 == l.segments[i] && i > idx
+//@   call Delete#1 requires [whole-segment-at-the-offset] arg0 == seg && seg.BaseOffset == offset && idx > 0
+//@   loop 1 invariant idx + 1 <= i && i <= len(l.segments) && deleted == i - (idx + 1) && 0 <= idx && idx < len(l.segments) && seg == l.segments[idx] && seg != nil
+//@   loop 1 invariant l.segments == old(l.segments) && (forall k int :: 0 <= k && k < len(l.segments) ==> l.segments[k] == old(l.segments[k]))
+//@   loop 2 invariant 0 <= i && i <= idx && fresh(segments) && l.segments == old(l.segments) && (forall k int :: 0 <= k && k < len(l.segments) ==> l.segments[k] == old(l.segments[k]))
+//@   loop 2 invariant forall k int :: 0 <= k && k < i ==> segments[k] == old(l.segments[k])
+//@   loop 3 invariant newSegment != nil && (err == nil ==> len(ms) > 28 && e != nil) && fresh(segments) && l.segments == old(l.segments)
+//@   loop 3 invariant forall k int :: 0 <= k && k < idx ==> segments[k] == old(l.segments[k])
+//@   call WriteMessageSet requires [prefix-rewritten-unchanged] arg0 == newSegment && arg1 == ms && len(arg2) == 1 && arg2[0] == e && int64(be64(ms, 0)) < offset
+//@   call Replace requires [replaces-the-segment-holding-the-offset] arg0 == newSegment && arg1 == seg
+//@   call ClearLatest requires [epochs-cut-at-the-offset] arg1 == offset
+//@   ensures [segments-below-kept] result == nil ==> (forall i int :: 0 <= i && i < old(len(l.segments)) && old(nextOf(l.segments[i])) <= offset ==> i < len(l.segments) && l.segments[i] == old(l.segments[i]))
+//@   ensures [active-is-last] result == nil && ghost.cut ==> len(l.segments) >= 1 && l.vActiveSegment == l.segments[len(l.segments)-1]
